@@ -2,6 +2,7 @@ import TucanProofs.Lemmas.ParserOutput
 import TucanProofs.Lemmas.RoundTripPipeline
 import TucanProofs.Lemmas.OracleNonempty
 import TucanProofs.Lemmas.RespellAst
+import TucanProofs.Lemmas.MoreExamples
 /-!
 # C11 — any valid spelling of a molecule normalizes to its one canonical string
 
@@ -111,5 +112,9 @@ theorem C11_oracle_contract_inhabited : Nonempty CanonOracle := CanonOracle.none
 /-- non-vacuity: a concrete spelling is accepted by the front end -/
 example : (parseTucan [.lit ['C'], .lit ['2'], .lit ['/'], .lit ['('], .lit ['2'], .lit ['-'], .lit ['1'], .lit [')']]).isSome = true := by
   decide +kernel
+
+/-- non-vacuity of `C11_respelled_strings`: tuples reordered, one swapped, one repeated, the attribute block split -/
+example : SameMeaning MoreExamples.astA MoreExamples.astB ∧ MoreExamples.astA.Valid ∧ MoreExamples.astB.Valid :=
+  ⟨MoreExamples.sameMeaning_AB, MoreExamples.astA_valid, MoreExamples.astB_valid⟩
 
 end Tucan
